@@ -153,7 +153,10 @@ TEXTS = {
                 "get after any insertions = first inserted term with that id, None outside the id space; a returned term carries the asked id; "
                 "iteration yields each inserted id exactly once and agrees with len; insertion outside the id space panics; id-space size "
                 "regenerated from the source. Tied to the crate by sweeping Ontology::hpo over all 10^7+2 ids (plus probes to u32::MAX) per "
-                "generated ontology, and by evaluating spec_C10 (incl. the name lookups) on the crate's observation.",
+                "generated ontology, and by evaluating spec_C10 (incl. the name lookups) on the crate's observation. Sub-check C10m does the "
+                "same sweep on an ontology of more than 65 536 terms (beyond a 16-bit slot index), which the model builds through block forms "
+                "proved equal to the call-by-call Builder transcription (C10_many_terms_block_is_calls, C10_connect_without_links, "
+                "C10_many_terms_script).",
         "design_ref": "DESIGN.md §4 C10", "note": NOTE_COMMON + "str::contains modelled as byte-level infix.", "technique": TECH,
     },
     "C11": {
